@@ -27,7 +27,7 @@ RULE = (
     "cells with p = 1. Non-trivial = cell classified must-raise or must-run (not 'unspecified')."
 )
 ASSUMPTIONS = [
-    "the stage (construction / fit / predict) at which ValueError is raised is not prescribed",
+    "for invalid HYPER-PARAMETERS the stage (construction / fit / predict) at which ValueError is raised is not prescribed; for invalid DATA (NaN, too short) the call that receives the data must raise: fit(bad) alone, and predict(bad) after fit(good)",
     "unspecified cells (docstring and code disagree or the statement is silent): PELT penalty_scale=None, level outside (0,1), MovingWindow.min_detection_interval in (bandwidth/2 - 1, bandwidth/2]; either outcome accepted, counted separately",
     "CAPA/MVCAPA: min_segment_length < 2 and a point saving with minimum size > 1 are documented-invalid; MVCAPA with a multivariate saving or an unknown penalty name is documented-invalid; MVCAPA 'intermediate' penalty needs p >= 2",
     "documented minimum data length: 2*min_segment_length (PELT, seeded and circular binary segmentation), 2*bandwidth (moving window), min_segment_length (CAPA, MVCAPA)",
@@ -165,6 +165,16 @@ def run_one(acc, name, ci, build, st, info, n, p, nan, dname, X):
         acc.violation("timeout", case, "did not return", key)
         return
     acc.outcome(f"{cls}:{outcome[0]}")
+    if cls == "must-raise" and st != "invalid" and outcome[0] == "ValueError":
+        # bad DATA (NaN / too short) with a valid configuration: the very call that receives the data must raise --
+        # fit(bad) on its own, and predict(bad) after a fit on good data
+        stage = data_stage_outcomes(name, build, info, n, p, nan, X)
+        for where, got in stage.items():
+            if got != "ValueError":
+                why = "NaN in data" if nan else "data shorter than the documented minimum"
+                acc.violation("invalid-data-not-rejected-by-receiving-call", dict(case, stage=where),
+                              f"{name}({case.get('params')}) n={n} p={p}: {why}: {where} -> {got} (ValueError required from the call that receives the data)",
+                              dict(key, why=why, stage=where, got=got))
     if cls == "unspecified":
         acc.count("unspecified_cells")
         return
@@ -192,6 +202,36 @@ def run_one(acc, name, ci, build, st, info, n, p, nan, dname, X):
     acc.violation("valid-config-failed", case,
                   f"{name}({case.get('params')}) n={n} p={p} data={dname}: documented-valid configuration -> {outcome[0]}: {outcome[1]}",
                   dict(key, got=outcome[0]))
+
+
+def data_stage_outcomes(name, build, info, n, p, nan, X):
+    """{'fit(bad)': outcome, 'predict(bad) after fit(good)': outcome}"""
+    out = {}
+
+    def outcome(f):
+        try:
+            f()
+            return "ok"
+        except ValueError:
+            return "ValueError"
+        except Exception as e:
+            return type(e).__name__
+
+    def new():
+        kw = build()
+        return dets.make_detector(name, **kw) if name == "StatThresholdAnomaliser" else make(name, kw)
+
+    Xf = pd.DataFrame(X)
+    out["fit(bad)"] = outcome(lambda: new().fit(Xf))
+    good_n = max(info["minlen"], n) + 2
+    good = pd.DataFrame(np.column_stack([((np.arange(good_n) * (3 + j)) % 5).astype(float) + (np.arange(good_n) >= good_n // 2) * 4.0 for j in range(p)]))
+    try:
+        det = new()
+        det.fit(good)
+    except Exception:
+        return out  # the configuration cannot be fitted on this good data (e.g. scorer minimum size): nothing to add
+    out["predict(bad) after fit(good)"] = outcome(lambda: det.predict(Xf))
+    return out
 
 
 def make(name, kw):
